@@ -209,7 +209,7 @@ def rand_set_args(r, keys, cfg):
             else:
                 args.append(r.choice([rand_token(r), "png", "xz", "dotted"]))
     if r.random() < 0.15:
-        args.insert(r.randrange(len(args) + 1), "not_a_parameter")
+        args.insert(r.randrange(len(args) + 1), r.choice(["not_a_parameter", "plot_", "plot_pose", "plot_split ", "Plot_split"]))
     return [a for a in args if a != ""]
 
 
@@ -217,7 +217,7 @@ def rand_other(r, keys):
     d = {}
     for _ in range(r.randint(1, 4)):
         k = r.choice(keys + ["extra_a", "extra_b"])
-        d[k] = r.choice([True, False, 3, 2.5, "text", [1, 2], ["a"], -7, 0.1, 0, "", [], 0.0])
+        d[k] = r.choice([True, False, 3, 2.5, "text", [1, 2], ["a"], -7, 0.1, 0, "", [], 0.0, "true", "[]", "1e3", "-1", "none"])
     return d
 
 
@@ -230,6 +230,25 @@ def gen_cases(ctx):
     yield {"kind": "gen", "app": "ape", "toks": ["--align", "--plot", "--plot_mode", "xz", "--verbose"], "corpus": "help-example"}
     yield {"kind": "gen", "app": "traj", "toks": ["--motion_filter", "0.5", "-3", "--downsample", "10"], "corpus": "nargs2"}
     yield {"kind": "gen", "app": "ape", "toks": ["--t_max_diff", "2.5e0", "--t_offset", "1e-3"], "corpus": "exponent-values"}
+    # L2: same-process histories around the module-level DEFAULT_SETTINGS_DICT and repeated invocations
+    for ops in (
+        [{"op": "set", "args": ["plot_linewidth", "7.25", "plot_statistics", "max"]}, {"op": "upgrade", "drop": ["plot_split"]},
+         {"op": "reset_sub", "params": ["plot_linewidth", "plot_statistics"]}],
+        [{"op": "set", "args": ["plot_linewidth", "7.25"]}, {"op": "upgrade", "drop": []}, {"op": "reset_all"}],
+        [{"op": "set_cli", "args": ["plot_split"]}, {"op": "reset_sub_cli", "params": ["plot_split"]}, {"op": "set_cli", "args": ["plot_split"]}],
+        [{"op": "set", "args": ["plot_figsize", "3", "4"]}, {"op": "reset_sub", "params": ["plot_figsize"]},
+         {"op": "set", "args": ["plot_figsize", "5", "6"]}, {"op": "upgrade", "drop": ["plot_figsize"]}, {"op": "reset_sub", "params": ["plot_figsize"]}],
+        [{"op": "merge", "soft": False, "other": {"plot_linewidth": 9, "extra_a": [1]}}, {"op": "upgrade", "drop": ["plot_mode_default"]},
+         {"op": "reset_sub", "params": ["plot_linewidth", "plot_mode_default"]}, {"op": "merge", "soft": True, "other": {"plot_linewidth": 1}}],
+        # L10: values that look like other things; a key that is a prefix of another key
+        [{"op": "set", "args": ["plot_backend", "true", "plot_legend_loc", "[]", "plot_fontfamily", "1e3", "plot_texsystem", "-1"]},
+         {"op": "set", "args": ["plot_pose_correspondences", "plot_pose_correspondences_linestyle", "plot_pose_correspondences"]},
+         {"op": "set", "args": ["plot_pose_correspondences_linestyle", "plot_pose", "plot_"]},
+         {"op": "reset_sub", "params": ["plot_pose_correspondences"]}],
+        [{"op": "merge", "soft": False, "other": {"plot_backend": "true", "plot_split": "false", "plot_linewidth": "2.5", "plot_figsize": "[]"}},
+         {"op": "set", "args": ["plot_split"]}, {"op": "upgrade", "drop": ["plot_backend"]}],
+    ):
+        yield {"kind": "hist", "ops": ops, "corpus": "L2/L10"}
     for t in ["500", "-0.5", "1e3", "3.0", "--1", "1e", ".", "-.5", "10.", "0.1", "1e23", "-0", "+5", "", "-"]:
         yield {"kind": "tok", "tok": t}
     for _ in range(150 if not ctx.thorough else 1500):
@@ -298,11 +317,14 @@ def rand_arglist(app, seed):
 
 
 OPT_TABLES = {}
+PRISTINE = [None]     # DEFAULT_SETTINGS_DICT as the file defines it (fresh execution of settings_template.py)
 
 
 # ----------------------------------------------------------------------------- evaluation
 def evaluate(ctx, cases):
     st, mc, ep, D = evo_mods()
+    PRISTINE[0] = settings_T.default_settings()
+    D = dict(PRISTINE[0])
     if not OPT_TABLES:
         with quiet():
             for app in ("ape", "rpe", "traj"):
@@ -327,15 +349,16 @@ def evaluate(ctx, cases):
                 line = None
                 try:
                     with quiet():
+                        how = ("str", "path", "rel", "dotted")[(info["step"] + len(case["ops"])) % 4]
                         if op["op"] == "set":
                             line = f"C18 set {enc_dict(before)} {enc_strs(op['args'])}"
-                            mc.set_config(st.DEFAULT_PATH, op["args"])
+                            mc.set_config(spell(st.DEFAULT_PATH, how), op["args"])
                         elif op["op"] == "set_cli":
                             line = f"C18 set {enc_dict(before)} {enc_strs(op['args'])}"
                             run_main(mc, ["set"] + op["args"])
                         elif op["op"] == "reset_sub":
                             line = f"C18 resetsub {enc_dict(before)} {enc_strs(op['params'])}"
-                            st.reset(st.DEFAULT_PATH, parameter_subset=op["params"])
+                            st.reset(Path(spell(st.DEFAULT_PATH, how)), parameter_subset=op["params"])
                         elif op["op"] == "reset_sub_cli":
                             line = f"C18 resetsub {enc_dict(before)} {enc_strs(op['params'])}"
                             run_main(mc, ["reset"] + op["params"])
@@ -347,7 +370,7 @@ def evaluate(ctx, cases):
                             other.write_text(json.dumps(op["other"]))
                             line = f"C18 merge {1 if op['soft'] else 0} {enc_dict(before)} {enc_dict(op['other'])}"
                             if op["op"] == "merge":
-                                mc.merge_json_union(st.DEFAULT_PATH, str(other), op["soft"])
+                                mc.merge_json_union(spell(st.DEFAULT_PATH, how), spell(other, how), op["soft"])
                             else:
                                 run_main(mc, ["set", "-m", str(other)] + (["--soft"] if op["soft"] else []))
                         elif op["op"] == "upgrade":
@@ -362,6 +385,7 @@ def evaluate(ctx, cases):
                 except Exception as e:  # noqa
                     info["exc"] = type(e).__name__ + ": " + str(e)[:100]
                 info["after"] = read_settings(st)
+                info["defaults_now"] = dict(mc.DEFAULT_SETTINGS_DICT)
                 jobs.append((case, info, line))
                 if not encodable(info["after"]):
                     break
@@ -379,13 +403,20 @@ def evaluate(ctx, cases):
             cfgfile = home_other / "cfg.json"
             cfgfile.write_text(json.dumps(case["config"]))
             ns0 = {o["name"]: o["default"] for o in OPT_TABLES[case["app"]]}
-            ns0["config"] = str(cfgfile)
+            ns0["config"] = spell(cfgfile, ("str", "rel", "dotted", "path")[len(case["config"]) % 4])
             saved = {k: v for k, v in st.SETTINGS.items()}
             disk_before = Path(st.DEFAULT_PATH).read_bytes()
+            fresh_before = dict(st.SettingsContainer.from_json_file(st.DEFAULT_PATH))
             try:
-                with quiet():
-                    out = ep.merge_config(argparse.Namespace(**ns0))
+                try:
+                    with quiet():
+                        out = ep.merge_config(argparse.Namespace(**ns0))
+                except Exception as e:  # noqa  (L12: never a harness crash)
+                    ctx.mismatch(case, "merge_config raised", type(e).__name__ + ": " + str(e)[:100], None)
+                    continue
                 settings_after = {k: v for k, v in st.SETTINGS.items() if k != "__locked__"}
+                # a second run without -c in this process re-parses its own arguments; a *new* run loads the file:
+                fresh = dict(st.SettingsContainer.from_json_file(st.DEFAULT_PATH))
             finally:
                 for k, v in saved.items():
                     dict.__setitem__(st.SETTINGS, k, v)
@@ -393,8 +424,10 @@ def evaluate(ctx, cases):
                     dict.__delitem__(st.SETTINGS, k)
             disk_after = Path(st.DEFAULT_PATH).read_bytes()
             s0 = {k: v for k, v in saved.items() if k != "__locked__"}
+            ns0["config"] = str(ns0["config"])
+            out.config = str(out.config) if isinstance(getattr(out, "config", None), Path) else out.config
             jobs.append((case, {"ns0": ns0, "ns": vars(out), "settings0": s0, "settings": settings_after,
-                                "persisted": disk_before != disk_after},
+                                "persisted": disk_before != disk_after or fresh != fresh_before},
                          f"C18 mergecfg {enc_dict(ns0)} {enc_dict(case['config'])} {enc_dict(s0)}"))
         elif kind == "gen":
             toks = case["toks"] if case.get("toks") is not None else rand_arglist(case["app"], case["seed"])
@@ -411,6 +444,18 @@ def evaluate(ctx, cases):
     seen_gen = set()
     for (case, info, line), out in zip(live, outs):
         judge(ctx, case, info, out, D, seen_gen)
+
+
+def spell(path, how):
+    """the same file under another spelling / type (L7)"""
+    p = str(path)
+    if how == "path":
+        return Path(p)
+    if how == "rel":
+        return os.path.relpath(p)
+    if how == "dotted":
+        return os.path.join(os.path.dirname(p), ".", "..", os.path.basename(os.path.dirname(p)), os.path.basename(p))
+    return p
 
 
 def run_main(mc, argv):
@@ -499,7 +544,7 @@ def judge(ctx, case, info, out, D, seen_gen):
         if set(info["settings"]) != set(info["settings0"]):
             ctx.fail(case, "unknown-parameter-cannot-be-added", f"SETTINGS keys changed: {set(info['settings']) ^ set(info['settings0'])}")
         if info["persisted"]:
-            ctx.fail(case, "override-for-that-run-only", "settings.json on disk changed")
+            ctx.fail(case, "override-for-that-run-only", "settings.json on disk changed / a freshly loaded SETTINGS differs")
         ctx.count("branch", "mergecfg")
         ctx.record(case, any(k in info["settings0"] for k in cfg))
         return
@@ -530,6 +575,12 @@ def judge_hist(ctx, case, info, out, D):
         diff = {k: (canon(after).get(k), model.get(k)) for k in set(after) | set(model) if canon(after).get(k) != model.get(k)}
         ctx.mismatch(sub, f"settings.json after step {info['step']} ({op['op']}) differs from the model", diff, None)
     # ---------------- oracle: the property sentences
+    if info.get("defaults_now") is not None and (info["defaults_now"] != PRISTINE[0] or
+                                                  list(map(type, info["defaults_now"].values())) != list(map(type, PRISTINE[0].values()))):
+        bad = [k for k in PRISTINE[0] if info["defaults_now"].get(k) != PRISTINE[0][k]] + \
+              [k for k in info["defaults_now"] if k not in PRISTINE[0]]
+        ctx.fail(sub, "reset-restores-the-shipped-defaults",
+                 f"DEFAULT_SETTINGS_DICT was modified in this process by step {info['step']} ({op['op']}): {bad[:4]}")
     o = op["op"]
     if o in ("set", "set_cli"):
         args = op["args"]
